@@ -11,6 +11,7 @@
 //	            Gamma+T_g, ground until the verification equation holds
 //	smallkey    small-order / non-canonical public-key strings x T_g, ground the same way (must be rejected)
 //	keys        malformed and foreign public-key strings
+//	alpha-sweep EVERY alpha length 0..300 (thorough 0..1100) x formats: proof, H, Verify, beta against the reference
 //	memory      keys x alphas x formats x argument layouts: every byte-slice argument as a sub-slice of a larger
 //	            buffer (spare capacity, arguments adjacent in one buffer in every order, two keys back to back):
 //	            results independent of the layout, caller's memory bit-identical after every call
@@ -186,6 +187,7 @@ func run(c *mc.Ctx) {
 	timed("smallkey", func() { runSmallKey(c, keys, alphas) })
 	timed("keys", func() { runKeys(c, keys, alphas) })
 	timed("memory", func() { runMemory(c, keys, alphas) })
+	timed("alpha-sweep", func() { runAlphaSweep(c, keys) })
 	c.Rep.Extra["wall_s_by_group"] = timing // informational only; no verdict depends on it
 
 	for _, cl := range []string{
@@ -195,6 +197,7 @@ func run(c *mc.Ctx) {
 		"torsion/accepted/honest-key/gamma+T", "torsion/accepted/mixed-order-key", "torsion/accepted/mixed-order-key/gamma+T", "torsion/rejected/unground",
 		"smallkey/equation-holds/small-order", "smallkey/equation-holds/non-canonical",
 		"keys/pk-length", "keys/pk-not-a-point", "keys/pk-noncanonical",
+		"alpha-sweep/rfc9381", "alpha-sweep/draft10",
 		"memory/prove", "memory/prove-randomized", "memory/prove-then-verify", "memory/verify", "memory/verify-rejecting", "memory/proof-to-hash", "memory/key-store-history",
 	} {
 		c.Require(cl, 1)
